@@ -10,6 +10,9 @@
 // ns=1: the std:: column of the line is `*` and std::chrono is not called (inputs on which libstdc++ has undefined behaviour,
 // or a result the standard does not sanction: the known findings of the property, see checks/props/c12.py).
 // rs is the type of the scalar operand of duration * rep, rep * duration, duration / rep, duration % rep (default: r1).
+// adda2 / moda2 / tp_adda2: `D1 x{a}; x += D2{b}; x -= D2{b}` / `x %= D2{b}` / the same `+=`, `-=` of time_point<Clock, D1>: compound
+// assignment with a duration of ANOTHER type (converted by the implicit converting constructor; `n/a` when it does not take part).
+// Representation pairs: see rc_of (i32/i64 mixtures, f64, the narrow and unsigned ones, and unsigned / narrow next to wider).
 // If one of the free functions of [time.duration.nonmember] / [time.point.nonmember] is not declared (a requires-expression
 // checks it) the harness still compiles and prints `missing` for that operation: a violation, not a build failure.
 #include "proto.hpp"
@@ -154,13 +157,14 @@ template <typename R>
 constexpr bool is_fp = std::is_floating_point_v<R>;
 
 // ---------------------------------------------------------------- two-type operations
-enum Op2 { CAST, FLOOR, CEIL, ROUND, ADD, SUB, DIV, MOD, CMP, COMMON, CTYPE, CONV, TP_CAST, TP_FLOOR, TP_CEIL, TP_ROUND, TP_CMP,
-           TP_DIFF, TP_PLUS, TP_MINUS, TP_CONV, OP2_BAD };
+enum Op2 { CAST, FLOOR, CEIL, ROUND, ADD, SUB, DIV, MOD, CMP, COMMON, CTYPE, CONV, ADDA2, MODA2, TP_CAST, TP_FLOOR, TP_CEIL, TP_ROUND,
+           TP_CMP, TP_DIFF, TP_PLUS, TP_MINUS, TP_CONV, TP_ADDA2, OP2_BAD };
 
 static Op2 op2_of(std::string const& s)
 {
     static char const* names[] = {"cast", "floor", "ceil", "round", "add", "sub", "div", "mod", "cmp", "common", "ctype", "conv",
-                                  "tp_cast", "tp_floor", "tp_ceil", "tp_round", "tp_cmp", "tp_diff", "tp_plus", "tp_minus", "tp_conv"};
+                                  "adda2", "moda2", "tp_cast", "tp_floor", "tp_ceil", "tp_round", "tp_cmp", "tp_diff", "tp_plus",
+                                  "tp_minus", "tp_conv", "tp_adda2"};
     for (int i = 0; i < OP2_BAD; ++i)
         if (s == names[i]) return static_cast<Op2>(i);
     return OP2_BAD;
@@ -215,6 +219,21 @@ static void run2(Op2 op, ll a, ll b, Out& o)
         if constexpr (std::is_convertible_v<D1, D2>) { D2 const r = d1; o.put(r.count()); }
         else o.special = 2;
         return;
+    case ADDA2:      // `x += d2`, `x -= d2` on a D1 x: the argument is converted by the implicit converting constructor D1(d2)
+        if constexpr (std::is_convertible_v<D2, D1>) {
+            D1 x = d1;
+            x += d2;
+            D1 y = d1;
+            y -= d2;
+            o.put(x.count());
+            o.put(y.count());
+        } else o.special = 2;
+        return;
+    case MODA2:      // `x %= d2` (the overload taking a duration)
+        if constexpr (is_fp<R1> || is_fp<R2>) o.special = 2;
+        else if constexpr (std::is_convertible_v<D2, D1>) { D1 x = d1; x %= d2; o.put(x.count()); }
+        else o.special = 2;
+        return;
     default: break;
     }
     if constexpr (TP) {
@@ -254,6 +273,16 @@ static void run2(Op2 op, ll a, ll b, Out& o)
     case TP_CONV:    // the converting constructor time_point<Clock, D2>(time_point<Clock, D1>)
         if constexpr (std::is_convertible_v<D1, D2>) { T2 const r = T1{d1}; o.put(r.time_since_epoch().count()); }
         else o.special = 2;
+        return;
+    case TP_ADDA2:   // time_point<Clock, D1> t; `t += d2`, `t -= d2`
+        if constexpr (std::is_convertible_v<D2, D1>) {
+            T1 x{d1};
+            x += d2;
+            T1 y{d1};
+            y -= d2;
+            o.put(x.time_since_epoch().count());
+            o.put(y.time_since_epoch().count());
+        } else o.special = 2;
         return;
     default: return;
     }
@@ -377,7 +406,7 @@ using fn1 = void (*)(Op1, ll, ll, int, Out&);
 // Which (representation pair, period pair) combinations are instantiated (the same predicate is in c12.py):
 //   i64,i64 and f64,f64: the ten periods of the property x themselves; i64,i64 additionally the two alias
 //   periods 10, 11 with themselves, with the period they normalise to and with seconds;
-//   the mixed / 32-bit pairs: the periods {milli, minute, 1001/30000} x themselves.
+//   the mixed / 32-bit / narrow / unsigned pairs (rc 0..2, 7..16): the periods {milli, minute, 1001/30000} x themselves.
 constexpr bool in_sub(int k) { return k == 2 || k == 4 || k == 9; }
 constexpr bool alias_pair(int a, int b)
 {
@@ -387,8 +416,8 @@ constexpr bool in_tp(int k) { return k == 0 || k == 2 || k == 3 || k == 4 || k =
 constexpr bool tp_enabled(int rc, int k1, int k2)
 {
     if (rc == 3) return (in_tp(k1) && in_tp(k2)) || k1 >= 10 || k2 >= 10;
-    if (rc == 4 || rc <= 2) return in_sub(k1) && in_sub(k2);
-    return false;        // rc >= 5 (mixed double / integer, narrow and unsigned representations): no time_point instantiation
+    if (rc == 4 || rc <= 2 || rc >= 7) return in_sub(k1) && in_sub(k2);      // incl. the narrow / unsigned / mixed pairs 7..16
+    return false;        // rc 5, 6 (mixed double / integer): no time_point instantiation
 }
 constexpr bool enabled(int rc, int k1, int k2)
 {
@@ -423,7 +452,7 @@ static void fill1(fn1* t, std::integer_sequence<int, I...>)
 }
 
 struct Tables {
-    fn2 t2[11][NPER * NPER]{};
+    fn2 t2[17][NPER * NPER]{};
     fn1 t1[5][NPER]{};
 };
 
@@ -444,6 +473,14 @@ static void fill_part(Tables& t)
     fill2<L, std::uint32_t, std::uint32_t, 8, PART>(t.t2[8], seq2{});
     fill2<L, std::int64_t, std::int16_t, 9, PART>(t.t2[9], seq2{});
     fill2<L, std::uint32_t, std::int32_t, 10, PART>(t.t2[10], seq2{});
+    // mixed representations whose common type differs from (at least) one operand's: an unsigned or narrow operand next to a
+    // wider one (time_point<int64 ms> - duration<uint32 ms>, time_point<int32> - duration<int16>, ...)
+    fill2<L, std::int64_t, std::uint32_t, 11, PART>(t.t2[11], seq2{});
+    fill2<L, std::uint32_t, std::int64_t, 12, PART>(t.t2[12], seq2{});
+    fill2<L, std::int16_t, std::int64_t, 13, PART>(t.t2[13], seq2{});
+    fill2<L, std::int32_t, std::uint32_t, 14, PART>(t.t2[14], seq2{});
+    fill2<L, std::int16_t, std::int32_t, 15, PART>(t.t2[15], seq2{});
+    fill2<L, std::int32_t, std::int16_t, 16, PART>(t.t2[16], seq2{});
     fill1<L, std::int16_t, PART>(t.t1[3], seq1{});
     fill1<L, std::uint32_t, PART>(t.t1[4], seq1{});
     fill1<L, std::int32_t, PART>(t.t1[0], seq1{});
@@ -487,6 +524,12 @@ static int rc_of(std::string const& r1, std::string const& r2)
     if (r1 == "u32" && r2 == "u32") return 8;
     if (r1 == "i64" && r2 == "i16") return 9;
     if (r1 == "u32" && r2 == "i32") return 10;
+    if (r1 == "i64" && r2 == "u32") return 11;
+    if (r1 == "u32" && r2 == "i64") return 12;
+    if (r1 == "i16" && r2 == "i64") return 13;
+    if (r1 == "i32" && r2 == "u32") return 14;
+    if (r1 == "i16" && r2 == "i32") return 15;
+    if (r1 == "i32" && r2 == "i16") return 16;
     return -1;
 }
 static int r_of(std::string const& r) { return r == "i32" ? 0 : r == "i64" ? 1 : r == "f64" ? 2 : r == "i16" ? 3 : r == "u32" ? 4 : -1; }
